@@ -266,12 +266,13 @@ def run_case(case):
     d = pl.make_workdir(refs, queries)
     bad = []
     try:
-        rc0, err0, base = run_cli(repo, d, 1, 0, mode, 'base')
+        # every run of the set writes to the SAME output path, as a user repeating the command does: what an earlier run left there must not show
+        rc0, err0, base = run_cli(repo, d, 1, 0, mode, 'same')
         if rc0 != 0:
             return (seed, mode), [('cli_run_succeeds', err0)], 1
         variants = [(c, 0) for c in cpu_list] + [(1, 0)] + [(cpu_list[-1], 1), (cpu_list[len(cpu_list) // 2], 2)]
         for i, (c, pert) in enumerate(variants):
-            rc, err, files = run_cli(repo, d, c, pert, mode, f"v{i}")
+            rc, err, files = run_cli(repo, d, c, pert, mode, 'same')
             if rc != 0:
                 bad.append(('cli_run_succeeds', dict(cpus=c, error=err)))
             elif files != base:
@@ -306,7 +307,7 @@ def bounded(repo, tier, seed):
                                       observed=detail, required='C09 statement'))
     return result(tot, tot, "real CLI runs (separate processes, real p_tqdm worker pools) on generated sets incl. two queries with two identical flanks (equal-confidence "
                             "second-pass candidates, once with fragments of different label counts): --cpus 1 (baseline and repetition), 2, 3, 8, 16, one set of 300 short queries with 1 and 2 workers, one set with a dispersed duplication (two second-pass fragments of different size whose alignments tie exactly), one set with a mirror-symmetric molecule (forward and reverse candidates tie exactly) run in interpreters with eight different string hash seeds, plus runs whose per-query workers sleep a seeded random "
-                            "0-30 ms (perturbed completion order); all XMAP files compared byte-wise except the '# coma' / '# hostname' header lines; "
+                            "0-30 ms (perturbed completion order); all runs of a set write to the same output path; all XMAP files compared byte-wise except the '# coma' / '# hostname' header lines; "
                             "evaluations = CLI runs", [dict(seed=cases[0][1], mode=cases[0][2])], list(viol.values())[:5], exhaustive=False,
                   bounds=f"{len(cases)} sets x {len(cases[0][3]) + 4} runs")
 
